@@ -39,6 +39,8 @@ def generate(unit, repo=REPO, pre_sources=None):
     g.text, g.linemap = text, linemap
     g.functions = ex.functions
     g.transforms = sorted(ex.transforms | {"T1", "T2"})
+    g.vacuity_probes = list(ex.vacuity_probes)
+    g.contracted = set(ex.used_contracts)
     g.fn_ranges = [(f["name"], f["file"], f["line_start"], f["line_end"]) for f in ex.functions]
     return g
 
